@@ -349,12 +349,20 @@ func (p *cparser) postfix() cExpr {
 			p.expect("]")
 			x = &cIndex{x, i}
 		case p.isOp("("):
-			id, ok := x.(*cIdent)
-			if !ok {
+			var fname string
+			if id, ok := x.(*cIdent); ok {
+				fname = id.Name
+			} else if f, ok := x.(*cField); ok {
+				// package-qualified type cast: types.SendType(x)
+				if q, ok := f.X.(*cIdent); ok {
+					fname = q.Name + "." + f.F
+				}
+			}
+			if fname == "" {
 				panic("call of non-identifier")
 			}
 			p.pos++
-			c := &cCall{Fn: id.Name}
+			c := &cCall{Fn: fname}
 			if !p.isOp(")") {
 				for {
 					c.Args = append(c.Args, p.expr())
